@@ -304,6 +304,8 @@ func TestVerifC29(t *testing.T) {
 			rep.Fail("decoded-request-differs:"+wantType.String(), fmt.Sprintf("decoded type %v", gotType), replay)
 		}
 	}
+	bo, bi := c29BreakEven(t, rep, vfNewRng(2905))
+	ops, impl = append(ops, bo...), append(impl, bi...)
 	rep.vfCompare("marshal", ops, impl, nil)
 	c29HighlyCompressible(t, rep, vfNewRng(2904))
 	c29Batch(t, rep, vfNewRng(2902))
@@ -522,4 +524,69 @@ func c29HighlyCompressible(t *testing.T, rep *vfReport, r *vfRng) {
 			}
 		}
 	}
+}
+
+// c29BreakEven: a scan for the break-even point of compression. With SizeThreshold = 1 every
+// statement is a candidate; as the SQL text grows byte by byte the protobuf size grows by one
+// and the gzip size by zero or one, so protobuf size - gzip size passes through -1, 0, +1. Every
+// request whose two sizes tie or differ by one goes through the real Marshal, the model's
+// decision, the "only if smaller" rule and the round trip.
+func c29BreakEven(t *testing.T, rep *vfReport, r *vfRng) (ops, impl []string) {
+	texts := []func(n int) string{
+		func(n int) string { return c29Text(r, n, 0) },
+		func(n int) string { return strings.Repeat("ab", n/2+1)[:n] },
+		func(n int) string { h := n / 2; return c29Text(r, h, 1) + strings.Repeat("x", n-h) },
+	}
+	maxLen := vfScale(300, 1200)
+	for shape := 0; shape < 3; shape++ {
+		for ti, mk := range texts {
+			for n := 1; n <= maxLen; n++ {
+				sql := mk(n)
+				req := &proto.Request{Statements: []*proto.Statement{{Sql: sql}}}
+				var rq Requester
+				typ := proto.Command_COMMAND_TYPE_EXECUTE
+				switch shape {
+				case 0:
+					rq = &proto.ExecuteRequest{Request: req}
+				case 1:
+					rq = &proto.QueryRequest{Request: req, Timings: true}
+					typ = proto.Command_COMMAND_TYPE_QUERY
+				default:
+					rq = &proto.ExecuteQueryRequest{Request: req, Freshness: 7}
+					typ = proto.Command_COMMAND_TYPE_EXECUTE_QUERY
+				}
+				plain, _ := pb.Marshal(rq)
+				gz, _ := gzCompress(plain)
+				d := len(plain) - len(gz)
+				if d < -1 || d > 1 {
+					continue
+				}
+				m := NewRequestMarshaler()
+				m.SizeThreshold = 1
+				orig := pb.Clone(rq)
+				b, compressed, err := m.Marshal(rq)
+				if err != nil {
+					t.Fatal(err)
+				}
+				ops = append(ops, fmt.Sprintf("decide %d %d 0 %s %d %d", m.BatchThreshold, m.SizeThreshold, c29SqlsTok(req), len(plain), len(gz)))
+				impl = append(impl, vfBool(compressed))
+				rep.Count(fmt.Sprintf("break-even:plain-minus-gzip=%d", d))
+				rep.Case(fmt.Sprintf("breakeven|%d|%d|%d", shape, ti, n), true)
+				info := map[string]interface{}{"type": typ.String(), "sql_bytes": n, "plain_bytes": len(plain), "gzip_bytes": len(gz), "request_hex": fmt.Sprintf("%x", plain)}
+				if compressed && !(len(b) < len(plain)) {
+					rep.Fail("compressed-but-not-smaller-and-not-forced:break-even", fmt.Sprintf("protobuf %d bytes, gzip %d bytes: entry of %d bytes is flagged compressed", len(plain), len(gz), len(b)), info)
+				}
+				if !compressed && string(b) != string(plain) {
+					rep.Fail("plain-entry-differs-from-protobuf:break-even", "", info)
+				}
+				if compressed && string(b) != string(gz) {
+					rep.Fail("compressed-entry-is-not-the-gzip-bytes:break-even", fmt.Sprintf("protobuf %d bytes, gzip %d bytes, entry %d bytes", len(plain), len(gz), len(b)), info)
+				}
+				if msg := c29CheckItem(&c29Item{orig: orig, typ: typ, sub: b, compressed: compressed}); msg != "" {
+					rep.Fail("decoded-request-differs:break-even", fmt.Sprintf("protobuf %d bytes, gzip %d bytes, flagged compressed=%v: %s", len(plain), len(gz), compressed, msg), info)
+				}
+			}
+		}
+	}
+	return
 }
